@@ -67,7 +67,7 @@ TrCRet == /\ IsEvent("C.Ret") /\ CNext
                                      /\ Ev.thrleak = 0                      \* and so are its threads (NoThreadLeft)
 
 (* next execution: all parties of the previous one are done *)
-TrConfig == /\ IsEvent("Config") /\ AllDone
+TrConfig == /\ l <= Len(TraceLog) /\ Ev.e = "Config" /\ l' = l + 1 /\ AllDone
             /\ real' = Ev.real
             /\ cfg' = CfgOf(Ev.cfg)
             /\ expected' = Expected(cfg')
